@@ -86,6 +86,19 @@ def mutations(f, c, r, exhaustive=False, per_region=2):
     out.append(Mut(f[:48] + rnd_bytes(r, 20) + f[68:], "overwrite/iv0", 48, 68, "first IV overwritten"))
     if c.T >= 2:
         out.append(Mut(f[:68] + rnd_bytes(r, 20) + f[88:], "overwrite/iv-other", 68, 88, "second IV overwritten"))
+    # tag containing a 0x00 byte before its end: everything after that byte replaced
+    tag = f[10:10 + hl]
+    if 0 in tag[:-1]:
+        j = tag.index(0)
+        g = bytearray(f)
+        for q in range(10 + j + 1, 10 + hl):
+            g[q] ^= 0xA5
+        out.append(Mut(bytes(g), "tag-after-zero-byte", 10 + j + 1, 10 + hl, "tag bytes after its first 0x00 byte (index %d) changed" % j))
+    # two tag bytes changed by 0x80 each (byte-wise differences cancel in an 8-bit sum)
+    g = bytearray(f)
+    g[10] ^= 0x80
+    g[10 + hl - 1] ^= 0x80
+    out.append(Mut(bytes(g), "tag-two-bytes-0x80", 10, 10 + hl, "tag bytes 0 and %d both xor 0x80" % (hl - 1)))
     return [m for m in out if m.data != f]
 
 
@@ -111,14 +124,19 @@ def garbage(r, count):
     return res
 
 
-def produce_files(ck, exe, env, count, maxchunks=3):
-    """encrypt `count` structured cases with the implementation; returns [(EncCase, file bytes)]"""
-    cases = enc_cases(ck, count, maxchunks=maxchunks)
+def produce_files(ck, exe, env, count, maxchunks=3, want_zero_tag_byte=2):
+    """encrypt `count` structured cases with the implementation; returns [(EncCase, file bytes)].
+    A few extra files are selected (from a larger pool of encryptions) for having a 0x00 byte inside their tag."""
+    cases = enc_cases(ck, count + (40 * want_zero_tag_byte if want_zero_tag_byte else 0), maxchunks=maxchunks)
     lines = ["e%d %s" % (i, c.line()) for i, c in enumerate(cases)]
     impl = wv.run_lines([exe], lines, env=env)
-    res = []
+    res, extra = [], []
     for i, c in enumerate(cases):
         head, kv = split_impl(impl.get("e%d" % i, ""))
         if head.startswith("OK "):
-            res.append((c, bytes.fromhex(head.split()[1])))
-    return res
+            f = bytes.fromhex(head.split()[1])
+            if i < count:
+                res.append((c, f))
+            elif 0 in f[10:10 + HL[c.hm] - 1] and len(extra) < want_zero_tag_byte:
+                extra.append((c, f))
+    return res + extra
